@@ -5,7 +5,7 @@ From SC Require Import Lib.Prelude Lib.Int Model.Base64 Model.Verifiers Proofs.B
 Lemma eqb_bytes_eq : forall a b, eqb_bytes a b = true <-> a = b.
 Proof.
   induction a as [|x a IH]; destruct b as [|y b]; cbn [eqb_bytes]; split; intro H; try reflexivity; try discriminate.
-  - apply andb_true_iff in H. destruct H as [H1 H2]. apply Z.eqb_eq in H1. apply IH in H2. subst. reflexivity.
+  - destruct (Z.eqb_spec x y) as [E|E]; [|discriminate]. apply IH in H. subst. reflexivity.
   - injection H as -> ->. rewrite Z.eqb_refl. apply IH. reflexivity.
 Qed.
 Lemma eqb_bytes_refl : forall a, eqb_bytes a a = true.
@@ -266,4 +266,43 @@ Lemma ed_verify_iff : forall (ed25519_verify : list Z -> list Z -> list Z -> boo
   /\ ed_verify ed25519_verify payload key sig <> Ok false.
 Proof.
   intros f p k s. unfold ed_verify, ed_decide. destruct (f k p s); simpl; split; try split; congruence.
+Qed.
+
+(* ---------- change of key or signature ---------- *)
+(* once an assertion is accepted, replacing key and/or signature keeps it accepted exactly when
+   the signature oracle accepts the new pair on the SAME digest: nothing but the oracle stands
+   between a changed key / signature and rejection, and nothing else is re-examined *)
+Theorem wa_key_sig_change : forall c parse sha256 pv payload key sig ad cd,
+  bytes_ok payload = true ->
+  wa_verify c parse sha256 pv payload key sig ad cd = Ok true ->
+  forall key' sig',
+    (wa_verify c parse sha256 pv payload key' sig' ad cd = Ok true <->
+     pv key' (sha256 (ad ++ sha256 cd)) sig' = true)
+    /\ (pv key' (sha256 (ad ++ sha256 cd)) sig' = false ->
+        wa_verify c parse sha256 pv payload key' sig' ad cd = Fail).
+Proof.
+  intros c parse sha pv payload key sig ad cd Hb H key' sig'.
+  unfold wa_verify in *. rewrite wa_decide_spec in * by exact Hb.
+  unfold wa_accept in *.
+  destruct (len cd <=? max_cd c); cbn [andb] in *; [|discriminate].
+  destruct (match parse cd with Some (ty, ch) => eqb_bytes ty WEBAUTHN_GET && challenge_ok ch payload | None => false end);
+    cbn [andb] in *; [|discriminate].
+  destruct (min_ad c <=? len ad); cbn [andb] in *; [|discriminate].
+  destruct (match nth_error ad 32 with Some f => flags_ok f | None => false end); cbn [andb] in *; [|discriminate].
+  destruct (pv key' (sha (ad ++ sha cd)) sig'); split; try split; congruence.
+Qed.
+
+(* ---------- payloads longer than 32 bytes: the verdict depends on the first 32 bytes only ---------- *)
+Theorem wa_long_payload_prefix : forall c parse sha256 pv payload key sig ad cd,
+  bytes_ok payload = true -> 32 <= len payload ->
+  wa_verify c parse sha256 pv payload key sig ad cd
+  = wa_verify c parse sha256 pv (firstn 32 payload) key sig ad cd.
+Proof.
+  intros c parse sha pv payload key sig ad cd Hb Hl. unfold wa_verify.
+  rewrite !wa_decide_spec by (try apply bytes_ok_firstn; exact Hb).
+  assert (E : forall ch, challenge_ok ch (firstn 32 payload) = challenge_ok ch payload).
+  { intro ch. unfold challenge_ok. rewrite firstn_firstn. change (Nat.min 32 32) with 32%nat.
+    assert (len (firstn 32 payload) = 32) by (unfold len in *; rewrite firstn_length; lia).
+    rewrite H. replace (32 <=? len payload) with true by (symmetry; apply Z.leb_le; exact Hl). reflexivity. }
+  unfold wa_accept. destruct (parse cd) as [[ty ch]|]; [rewrite E|]; reflexivity.
 Qed.
